@@ -127,7 +127,8 @@ def variants():
                (R(**g), {"episodes": 1}), (R(**g), {"episodes": 0}), (R(gamma="1", **g), {}), (R(k=1, **g), {}), (R(tiny=True, **g), {}),
                (R(labels="int", **g), {"second_problem_n_delta": 1, "learners": ["QLearning", "SARSA"]})],
         "rmax": [(R(labels="falsy_str", **g), {}), (R(labels="unsorted", n=12, **g), {}), (R(labels="float", **g), {}),
-                 (R(**g), {"m": 1}), (R(**g), {"episodes": 1}), (R(k=1, **g), {}), (R(actions_as="list", init_dist="uniform", **g), {})],
+                 (R(**g), {"m": 1}), (R(**g), {"episodes": 1}), (R(k=1, **g), {}), (R(actions_as="list", init_dist="uniform", **g), {}),
+                 (R(labels="int", **g), {"second_problem_n_delta": 1})],
         "bpi": [({"kind": "tiger"}, {"nodes": 1}), ({"kind": "tiger"}, {"iterations": 12}), ({"kind": "tiger", "coherence": "1"}, {})],
         "ga": [({"kind": "tiger"}, {"nodes": 1}), ({"kind": "tiger"}, {"iterations": 1}), ({"kind": "tiger", "gamma": "0"}, {})],
         "semimdp": [(R(labels="falsy_str"), {}), (R(labels="unsorted", n=12), {}), (R(), {"nsim": 1}), (R(), {"include_mdp_actions": True}),
@@ -221,11 +222,16 @@ def run_matrix(ctx, cases, hashseeds):
     order (other shard composition, other predecessors in the process): class-level caches / module state show there"""
     sets = list(hashseeds) + [ORDER_SET]
     per = max(1, ctx.jobs // len(sets))
-    rev = list(reversed(cases))
+    sub = [i for i, c in enumerate(cases) if c["seed"] == 0 or len(cases) < 10]      # the order set runs the seed-0 cases only
+    rev = [dict(cases[i], x=False, t=False) for i in reversed(sub)]
 
     def one(label):
         if label == ORDER_SET:
-            return list(reversed(ctx.impl("c13_impl.py", {"cases": rev}, shards=per, hashseed="0", timeout=3000)["results"]))
+            res = ctx.impl("c13_impl.py", {"cases": rev}, shards=per, hashseed="0", timeout=3000)["results"]
+            full = [None] * len(cases)
+            for i, r in zip(reversed(sub), res):
+                full[i] = r
+            return full
         return ctx.impl("c13_impl.py", {"cases": cases}, shards=per, hashseed=label, timeout=3000)["results"]
     with ThreadPoolExecutor(max_workers=len(sets)) as ex:
         outs = list(ex.map(one, sets))
@@ -461,7 +467,7 @@ def run(ctx):
                   {k: ({kk: vv for kk, vv in v.items() if kk not in ("canon", "canon_head")} if isinstance(v, dict) else v)
                    for k, v in (r0 or {}).items() if k != "C"}}
     ctx.coverage.update({
-        "evaluations": len(cases) * (len(hashseeds) + 1),
+        "evaluations": len(cases) * len(hashseeds) + sum(1 for r in results.get(ORDER_SET, []) if r),
         "second_problem_runs": counters.get("second_problem_runs", 0),
         "by_origin": {o: sum(1 for c in cases if c.get("origin") == o) for o in ("corpus", "generated", "variant")},
         "distinct_nontrivial": len(nontrivial),
